@@ -68,13 +68,16 @@ STATEMENT_STATUS: Dict[str, str] = {
     "C09_scale_predicates": "proved (all predicates/measures homogeneous, any s > 0)",
     "C09_scale_lines": "proved: group_objects, word spaces and the empty-line split commute with scaling",
     "C09_scale_neighbours": "proved: the neighbour relation (as a set, through the grid index) is the same at every scale",
-    "C09_scale_statement": "full statement for group_textlines - FALSE for the code",
-    "C09_scale_cex": "proved counter-example (open finding C09-scale-equal-key-line-order, replayed on the implementation)",
+    "C09_find_neighbors_order": "proved: find_neighbors lists neighbours in line order (grid independent; after fix 014f62d)",
+    "C09_scale_textlines": "proved: group_textlines commutes with scaling as an equation (boxes, member order)",
+    "C09_scale_analyze_none": "proved: the WHOLE analysis commutes with scaling when boxes_flow is None",
+    "C09_scale_hierarchy_partial": "partial: with numeric boxes_flow the heap loop of group_textboxes is not simulated in "
+                                   "Lean (dist / keys / find are proved scale invariant); tested by the scale runs",
 }
 
 CLASSIFIERS = {
-    # the order of lines with EQUAL top edge inside one box follows Plane.find's cell scan order,
-    # which depends on where the 50-unit grid falls, i.e. on the scale
+    # (fixed 014f62d; no open finding uses it any more) the order of lines with EQUAL top edge inside one
+    # box followed Plane.find's cell scan order, which depends on where the 50-unit grid falls
     "c09_scale_equal_key_line_order": lambda f: (f.tags.get("check") == "scale" and f.tags.get("equal_key_lines", False)
                                                  and f.tags.get("only_equal_key_order", False)),
 }
